@@ -8,9 +8,51 @@ which go through _evaluate / _evaluate_range / _evaluate_non_iterative (they re-
 formulas: bounded only).
 """
 from contracts.c01 import ASSUMED as _C01_ASSUMED, CONTRACTS as _C01_CONTRACTS
-from pyvc.spec import Contract
+from pyvc.spec import (Abstract, Array, Const, Contract, DictOf, Int, NoneT, Record, Str, Tuple, Union, forall_range,
+                       same_call)
 
-CONTRACTS = list(_C01_CONTRACTS)
+ENI = 'pycel.excelcompiler:ExcelCompiler._evaluate_non_iterative'
+EVAL1 = 'pycel.excelcompiler:ExcelCompiler._evaluate'
+
+# -- _evaluate_non_iterative: an address already in the model is answered by _evaluate; the result of a range keeps the
+#    member values and loses exactly the dimensions of extent one ---------------------------------------------------
+
+KNOWN = 'S!A1'           # the address used in the contract: a key of cell_map
+
+
+def eni_result_is_trimmed_value(self, address, result):
+    """a scalar value is returned as it is; an h x w table loses exactly its dimensions of extent one: w == 1 -> the
+    column as a vector, h == 1 -> the single row, 1 x 1 -> the cell; every element is the member value at the same
+    position"""
+    t = same_call(EVAL1, self, address)
+    if not isinstance(t, tuple):
+        return result == t and type(result) is type(t)
+    h = len(t)
+    w = len(t[0])
+    if w == 1 and h == 1:
+        return result == t[0][0]
+    if w == 1:
+        return len(result) == h and forall_range(0, h, lambda i: result[i] == t[i][0])
+    if h == 1:
+        return len(result) == w and forall_range(0, w, lambda j: result[j] == t[0][j])
+    return len(result) == h and forall_range(0, h, lambda i: len(result[i]) == w and forall_range(
+        0, w, lambda j: result[i][j] == t[i][j]))
+
+
+SELF_ENI = Record('pycel.excelcompiler:ExcelCompiler', {'cell_map': DictOf(**{KNOWN: Const('a cell')})})
+
+EVAL_SHAPE = Contract(EVAL1, 'C05', params=dict(self=Const(None), address=Str()),
+                      returns=Union(NoneT(), Int(), Str(maxlen=4), Array(2)), klass='PROVED-ELSEWHERE',
+                      name='ExcelCompiler._evaluate[value shape]',
+                      notes='the value of a cell is a scalar, the value of a range a rectangular table of any size (C01 proves '
+                            'what the values are; here only the shape is used)')
+
+_C05_CONTRACTS = [
+    Contract(ENI, 'C05', name='ExcelCompiler._evaluate_non_iterative[address in the model]', modular=[EVAL_SHAPE],
+             params=dict(self=SELF_ENI, address=Const(KNOWN)), ensures=[eni_result_is_trimmed_value]),
+]
+
+CONTRACTS = list(_C01_CONTRACTS) + _C05_CONTRACTS
 ASSUMED = list(_C01_ASSUMED)
 LEMMAS = []
 
@@ -110,15 +152,19 @@ def bounded(tier, seed, R):
 
 
 LEVEL = 'other'
-EXPLANATION = ('Mixed. PROVED: the heap obligations of C01 (re-verified here from the current source): _reset closure contract '
-               'and set_value re-establishing the invariant Local, from which the value of a cached cell is the from-scratch '
-               'value whatever the order of evaluation. BOUNDED (native): the access paths themselves (cell, element of any '
+EXPLANATION = ('Mixed. PROVED: the heap obligations of C01 (re-verified here from the current source): _reset closure contract, '
+               'set_value re-establishing the invariant Local, _evaluate keeping cached values and Local - from which the value of a '
+               'cached cell is the from-scratch value whatever the order of evaluation; _evaluate_non_iterative for an address '
+               'already in the model: a scalar is returned as it is, an h x w table of any size loses exactly its dimensions of '
+               'extent one and keeps every member value at its position. BOUNDED (native): the access paths themselves (cell, element of any '
                'containing range, of a whole-column reference clipped to the used area, of a list / tuple / generator of '
                'addresses, repeated evaluation) and random evaluation orders on grammar workbooks from three origins.')
 ASSUMPTIONS = ['A-SUBSET', 'A-NX', 'A-EVAL', 'A-STORED', 'openpyxl max_row/max_column for the used area']
 BOUNDED_FUNCTIONS = [
     Contract('pycel.excelcompiler:ExcelCompiler._evaluate_non_iterative', 'C05', params={}, klass='BOUNDED',
-             notes='address forms, dimension trimming; through evaluate on every access path'),
+             name='ExcelCompiler._evaluate_non_iterative[other address forms]',
+             notes='list / tuple / generator of addresses, AddressRange objects, sheet-less addresses, addresses not yet in the '
+                   'model (graph construction): bounded'),
     Contract('pycel.excelcompiler:ExcelCompiler._evaluate_range', 'C05', params={}, klass='BOUNDED',
              notes='range value = tuple of member evaluations; re-enters _evaluate / compiled formulas'),
 ]
